@@ -34,17 +34,55 @@ static void cycles_pass(int sh,int n,int ncycles){ size_t shm=512*1024; // a ded
 	if(sh==0){ c->clear(); std::set<std::string> none; std::set<size_t> stored_sizes; for(size_t big=share-64;big<=share*12;big+=share*3/2){ std::string v(big,'y'); c->store("big",v,none,cm::FOREVER); stored_sizes.insert(big); std::string g; bool hit=c->fetch("big",&g,0,0,0); if(hit&&(g.find_first_not_of('y')!=std::string::npos||!stored_sizes.count(g.size()))){ vf::violation("cycles:oversized-corrupt","an oversized value is returned corrupted","\"case\":\"oversized\""); } c->store("small","s",none,cm::FOREVER); std::string s2; if(!c->fetch("small",&s2,0,0,0)||s2!="s") vf::violation("cycles:after-oversized","cache does not work after an oversized store","\"case\":\"oversized\""); vf::guard("oversized_probes"); vf::eval(); } c->clear(); }
 }
 
+// ---- eviction under MEMORY pressure (process-shared cache, no entry limit) ---------------------------------------------------
+// With an entry limit one store evicts one entry; under memory pressure one store may evict several. From a nearly full segment
+// (prologue: 22 entries of 14000 bytes with mixed deadlines and a shuffled LRU order) every sequence of <= depth operations from
+// {store(fresh key, 14000|40000 bytes, deadline now+2 | now+902 | none), overwrite(hot), fetch(f1), fetch(hot), tick(3)} is replayed
+// on the cleared cache; the survivors are probed at the end of the replay (fetch of every key + stats). For a final store the set
+// of evicted LIVE entries must be a prefix of the least-recently-used order of the live entries before it, and if any live entry
+// was evicted no expired entry may be left. How MANY entries a store needs to evict is the allocator's business and is not modelled.
+struct PState { std::vector<std::string> live_lru; /* live keys, least recently used first */ unsigned total; bool ok; };
+struct POp { int kind; /*0 store fresh,1 overwrite hot,2 fetch,3 tick*/ size_t size; long dl; std::string key; std::string name; };
+static std::vector<POp> palphabet(){ std::vector<POp> a; size_t sz[]={14000,40000}; long dl[]={2,902,0}; for(int s=0;s<2;s++) for(int d=0;d<3;d++){ POp o; o.kind=0; o.size=sz[s]; o.dl=dl[d]; o.name="store(fresh,"+std::to_string(sz[s])+"B,"+(dl[d]?"now+"+std::to_string(dl[d]):std::string("forever"))+")"; a.push_back(o); }
+	{ POp o; o.kind=1; o.size=14000; o.dl=302; o.key="hot"; o.name="store(hot,14000B,now+302)"; a.push_back(o); } { POp o; o.kind=2; o.key="f1"; o.name="fetch(f1)"; a.push_back(o); } { POp o; o.kind=2; o.key="hot"; o.name="fetch(hot)"; a.push_back(o); } { POp o; o.kind=3; o.size=0; o.dl=0; o.name="tick(3)"; a.push_back(o); } return a; }
+static PState prun(cppcms::impl::base_cache &c,const std::vector<POp> &alpha,const std::vector<int> &h,int variant,std::string *last_key){ c.clear(); g_now=1000000; std::set<std::string> none; std::vector<std::string> rec; std::set<std::string> all; PState r; r.ok=true;
+	auto touch=[&](const std::string &k){ rec.erase(std::remove(rec.begin(),rec.end(),k),rec.end()); rec.push_back(k); all.insert(k); };
+	auto st=[&](const std::string &k,size_t n,long dl){ std::string v(n,'p'); c.store(k,v,none,dl?g_now+dl:cm::FOREVER); touch(k); };
+	// prologue: f0..f21; deadlines: every third one short (expires after the first tick), the others long and increasing; then the LRU order is shuffled by fetches
+	for(int i=0;i<22;i++) st("f"+std::to_string(i),14000,(i%3==variant%3)?2:(500+3*i+2));
+	st("hot",14000,302); /* the live entry with the EARLIEST deadline ... */ for(int i=20;i>=0;i-=4){ std::string v; if(c.fetch("f"+std::to_string(i),&v,0,0,0)) touch("f"+std::to_string(i)); } { std::string v; if(c.fetch("hot",&v,0,0,0)) touch("hot"); } /* ... is the most recently used one */
+	if(variant>=3){ g_now+=3; }
+	int fresh=0; for(size_t i=0;i<h.size();i++){ const POp &o=alpha[h[i]]; if(o.kind==0){ std::string k="n"+std::to_string(fresh++); st(k,o.size,o.dl); if(last_key) *last_key=k; } else if(o.kind==1){ st("hot",o.size,o.dl); if(last_key) *last_key="hot"; } else if(o.kind==2){ std::string v; if(c.fetch(o.key,&v,0,0,0)){ touch(o.key); if(v.size()!=14000&&v.size()!=40000) r.ok=false; } } else g_now+=3; }
+	// probe (destructive for the LRU order, but the replay ends here)
+	unsigned k=0,t=0; c.stats(k,t); r.total=k; std::set<std::string> live; for(std::set<std::string>::iterator i=all.begin();i!=all.end();++i){ std::string v; if(c.fetch(*i,&v,0,0,0)){ live.insert(*i); if(v.find_first_not_of('p')!=std::string::npos) r.ok=false; } }
+	for(size_t i=0;i<rec.size();i++) if(live.count(rec[i])) r.live_lru.push_back(rec[i]); return r; }
+static void pressure_pass(int sh,int n,int depth){ booster::intrusive_ptr<cppcms::impl::base_cache> c=cppcms::impl::process_cache_factory(512*1024,0); std::vector<POp> alpha=palphabet(); uint64_t tick=0;
+	for(int variant=0;variant<6;variant++){ std::vector<int> h; std::function<void(const PState&,int)> rec=[&](const PState &parent,int d){ if(d==depth) return; for(size_t o=0;o<alpha.size();o++){ if(d==0&&(int)((o+variant)%n)!=sh) continue; h.push_back((int)o); std::string hs; for(size_t i=0;i<h.size();i++){ if(i) hs+=" ; "; hs+=alpha[h[i]].name; } std::string cs="pressure variant="+std::to_string(variant)+" ["+hs+"]"; vf::announce(cs); vf::eval();
+			std::string lk; PState s=prun(*c,alpha,h,variant,&lk); vf::C().traces++; vf::C().transitions+=h.size(); if(!s.ok) vf::violation("pressure:corrupt-value","a fetched value is corrupted ["+cs+"]","\"case\":"+vf::jstr(cs));
+			if(alpha[o].kind<=1){ // a store: which live entries went?
+				std::vector<std::string> before; for(size_t i=0;i<parent.live_lru.size();i++) if(parent.live_lru[i]!=lk) before.push_back(parent.live_lru[i]); std::set<std::string> after(s.live_lru.begin(),s.live_lru.end()); size_t evicted=0; bool gap=false; std::string first_kept,wrong;
+				for(size_t i=0;i<before.size();i++){ if(!after.count(before[i])){ evicted++; if(!first_kept.empty()&&wrong.empty()){ gap=true; wrong=before[i]; } } else if(first_kept.empty()) first_kept=before[i]; }
+				for(std::set<std::string>::iterator i=after.begin();i!=after.end();++i) if(*i!=lk&&std::find(before.begin(),before.end(),*i)==before.end()) vf::violation("pressure:resurrected","an entry that was gone is back after a store: "+*i+" ["+cs+"]","\"case\":"+vf::jstr(cs));
+				if(gap) vf::violation("pressure:not-lru","a store under memory pressure evicted the live entry '"+wrong+"' while the less recently used live entry '"+first_kept+"' is still cached ["+cs+"]","\"case\":"+vf::jstr(cs));
+				unsigned expired_left= s.total>=s.live_lru.size()? s.total-(unsigned)s.live_lru.size():0; if(evicted&&expired_left) vf::violation("pressure:live-before-expired","a store evicted "+std::to_string(evicted)+" live entr"+(evicted>1?"ies":"y")+" although "+std::to_string(expired_left)+" expired entr"+(expired_left>1?"ies are":"y is")+" still held ["+cs+"]","\"case\":"+vf::jstr(cs));
+				if(evicted) vf::guard("pressure_stores_evicting_live_entries"); if(evicted>=2) vf::guard("pressure_stores_evicting_several_live_entries"); unsigned exp_before= parent.total>=parent.live_lru.size()? parent.total-(unsigned)parent.live_lru.size():0; if(evicted&&exp_before) vf::guard("pressure_stores_evicting_expired_and_live_entries"); vf::guard("pressure_stores");
+				vf::outcome("pr|"+std::to_string(variant)+"|"+std::to_string(evicted)+"|"+std::to_string(exp_before)+"|"+std::to_string(expired_left));
+				if(evicted&&vf::sample_tick(tick,97)) vf::sample("{\"case\":"+vf::jstr(cs)+",\"live_before\":"+std::to_string(before.size())+",\"expired_before\":"+std::to_string(exp_before)+",\"live_evicted\":"+std::to_string(evicted)+",\"result\":\"evicted live entries are the least recently used ones; no expired entry left\"}",50); }
+			rec(s,d+1); h.pop_back(); } };
+		std::string dummy; PState root=prun(*c,alpha,std::vector<int>(),variant,&dummy); if(root.live_lru.size()<15){ fprintf(stderr,"harness error: pressure prologue holds only %zu live entries\n",root.live_lru.size()); vf::C().harness_error=true; } rec(root,0); }
+	c->clear(); }
+
 int main(int argc,char **argv){ vf::init(argc,argv,"C08","model_checking"); bool th=vf::thorough();
 	std::vector<cb::Config> cfgs; const char *be[]={"thread_shared","process_shared"}; for(int b=0;b<2;b++) for(unsigned l=1;l<=(th?8u:3u);l++){ int nkeys= l<=3? (int)l+2 : (l<=5?(int)l+1:9); if(nkeys>9) nkeys=9; if(b==1&&!th&&l!=2) continue; cfgs.push_back(config(be[b],l,nkeys)); }
 	if(!vf::C().replay_file.empty()){ std::ifstream f(vf::C().replay_file); std::stringstream ss; ss<<f.rdbuf(); std::string l=ss.str(); std::string label=vf::jfield(l,"config"); size_t p=l.find("\"history\":["); std::vector<int> h; if(p!=std::string::npos){ size_t e=l.find(']',p); h=vf::parse_choices(l.substr(p+11,e-p-11)); }
 		for(int b=0;b<2;b++) for(unsigned lim=1;lim<=8;lim++) for(int nk=2;nk<=9;nk++){ cb::Config c=config(be[b],lim,nk); if(c.label!=label) continue; cb::RunResult r=cb::run_history(c,h,true); for(size_t i=0;i<r.trace.size();i++) printf("  %s\n",r.trace[i].c_str()); printf("replay: %s\n",r.ok?"history conforms":r.what.c_str()); if(!r.ok) vf::violation(c.label+":"+r.sig,r.what,"\"config\":"+vf::jstr(label)); } return vf::finish(); }
 	int depth=th?7:5, nd=th?5:4; double t_budget=vf::C().budget_s*0.55;
-	vf::C().rule="states = canonical forms of the set-valued reference model (entries, deadlines relative to now, LRU order) reached by replaying histories on the real cache; alphabet: store(k, now+2 | no deadline [+ shared trigger]) for limit+2 keys, fetch(k), tick 1/3, remove(a), rise(t), stats; oracle: size <= limit after every history, every fetch/stats result admissible under 'expired first, then least recently stored-or-fetched' (any expired victim admissible), destructive audit of every key; memory clause: 28 fill/empty cycle scenarios on a 512 KiB process-shared segment with available() compared per cycle";
+	vf::C().rule="states = canonical forms of the set-valued reference model (entries, deadlines relative to now, LRU order) reached by replaying histories on the real cache; alphabet: store(k, now+2 | no deadline [+ shared trigger]) for limit+2 keys, fetch(k), tick 1/3, remove(a), rise(t), stats; oracle: size <= limit after every history, every fetch/stats result admissible under 'expired first, then least recently stored-or-fetched' (any expired victim admissible), destructive audit of every key; memory clause: 28 fill/empty cycle scenarios on a 512 KiB process-shared segment with available() compared per cycle; memory-pressure eviction: from a nearly full 512 KiB segment (6 prologue variants: 23 entries of 14000 bytes, mixed deadlines, shuffled LRU, expired entries present) every sequence of <= 4 (5) operations {store fresh 14000|40000 bytes x 3 deadlines, overwrite, 2 fetches, tick}: live entries evicted by a store form a prefix of the LRU order, none while an expired entry is left";
 	vf::assume("virtual clock via interposed time(); the victim among several expired entries is not specified (set-valued model)"); vf::assume("behaviour for values that do not fit the shared segment is outside the statement: only non-corruption and continued service are checked");
 	vf::parallel(cfgs.size(),16,[&](int i){ cb::Stats st; int dep= cfgs[i].limit<=4? depth : (th?5:depth); cb::bfs(cfgs[i],dep,st,[&](){ return vf::elapsed()>t_budget; }); vf::C().states+=st.states; vf::C().transitions+=st.transitions; vf::C().traces+=st.traces; vf::guard(("bfs_depth_completed:"+cfgs[i].label).c_str(),st.depth_done); if(st.fixpoint) vf::guard(("bfs_fixpoint:"+cfgs[i].label).c_str()); },th?1400:110);
 	{ std::vector<cb::Config> nc; nc.push_back(config("thread_shared",2,4)); nc.push_back(config("thread_shared",1,3)); if(th){ nc.push_back(config("thread_shared",3,5)); nc.push_back(config("process_shared",2,4)); }
 	  for(size_t k=0;k<nc.size();k++) vf::parallel(16,16,[&](int sh){ cb::Stats st; for(int d=1;d<=nd;d++) cb::nodedup(nc[k],d,sh,16,st); vf::C().traces+=st.traces; },th?1400:110); }
-	vf::parallel(16,16,[&](int sh){ cycles_pass(sh,16,th?200:20); },th?1400:110);
+	vf::parallel(16,16,[&](int sh){ cycles_pass(sh,16,th?200:20); pressure_pass(sh,16,th?5:4); },th?1400:110);
 	vf::C().extra["bound"]="{\"bfs_max_depth\":"+std::to_string(depth)+",\"nodedup_depth\":"+std::to_string(nd)+",\"configs\":"+std::to_string(cfgs.size())+"}";
-	vf::require_guard("nodedup_sequences"); vf::require_guard("cycles_run"); vf::require_guard("oversized_probes");
+	vf::require_guard("nodedup_sequences"); vf::require_guard("cycles_run"); vf::require_guard("oversized_probes"); vf::require_guard("pressure_stores_evicting_live_entries"); vf::require_guard("pressure_stores_evicting_several_live_entries"); vf::require_guard("pressure_stores_evicting_expired_and_live_entries");
 	return vf::finish(); }
